@@ -88,11 +88,6 @@ theorem N3_st_getComponent (hc : c * c = 2) (h2 : (2:K) ≠ 0) (a : Fin 6 → Fi
     gen% (Gen.N3_st_getComponent_all c c3 fn) | a 6 6
       = T4.comps pairs3 (T4.ofST c a) := by
   t4_eq hc
-/-- `st2tost2::convert(D)`: restriction of `D` to symmetric arguments, `(D_ijkl + D_ijlk)/2` -/
-theorem N3_st_convert_from_t2tost2 (hc : c * c = 2) (h2 : (2:K) ≠ 0) (a : Fin 6 → Fin 9 → K) :
-    gen% (Gen.N3_st_convert_from_t2tost2_all c c3 fn) | a 6 9
-      = rows66 (T4.stoST c (T4.symR (T4.ofTS c a))) := by
-  t4_eq hc
 /-- `t2tost2 * st2tot2` -/
 theorem N3_st_comp_ts_s2t (hc : c * c = 2) (h2 : (2:K) ≠ 0) (a : Fin 6 → Fin 9 → K) (b : Fin 9 → Fin 6 → K) :
     gen% (Gen.N3_st_comp_ts_s2t_all c c3 fn) | a 6 9 | b 9 6
